@@ -163,24 +163,27 @@ def output_wiring(fns, nfff, record, other_card=False):
     from yadism import output as outmod
     from yadism.esf.result import ESFResult
 
-    theory = dict(FNS=fns, NfFF=nfff, ModEv="EXA", Qref=91.2, nfref=5, alphaqed=0.0077, XIR=1.3, XIF=0.7, alphas=0.118, PTO=2,
+    theory = dict(FNS=fns, NfFF=nfff, ModEv="EXA", Qref=91.2, nfref=5, alphaqed=0.0077, XIR=1.3, XIF=0.7, alphas=0.118, PTO=2, PTODIS=2,
+                  QED=0, HQ="POLE", MaxNfPdf=6, MaxNfAs=6, Q0=1.65, nf0=4, IC=0, IB=0, TMC=0, MP=0.938, Qmc=1.51, Qmb=4.92, Qmt=172.5,
                   mc=1.51, mb=4.92, mt=172.5, kcThr=1.1, kbThr=1.2, ktThr=1.3)
-
-    class Heavy:
-        masses = [(1.51, None), (4.92, None), (172.5, None)]
-        matching_ratios = [1.1, 1.2, 1.3]
-        masses_scheme = "POLE-token"
-
-    class NewTheory:
-        heavy = Heavy()
-        couplings = "couplings-token"
-        order = "order-token"
 
     class Legacy:
         MOD_EV2METHOD = {"EXA": "iterate-exact"}
 
         def __init__(self, theory, operator):
             record["legacy_theory"] = theory
+
+            class Heavy:
+                # eko's Legacy reads the heavy-quark block from the card it is given
+                masses = [(theory["mc"], None), (theory["mb"], None), (theory["mt"], None)]
+                matching_ratios = [theory["kcThr"], theory["kbThr"], theory["ktThr"]]
+                masses_scheme = "POLE-token"
+
+            class NewTheory:
+                heavy = Heavy()
+                couplings = ("couplings-token", theory["alphas"], theory["Qref"])
+                order = "order-token"
+
             self.new_theory = NewTheory()
 
     class Runcards:
@@ -191,9 +194,11 @@ def output_wiring(fns, nfff, record, other_card=False):
     class Couplings:
         def __init__(self, **kw):
             record["couplings_kwargs"] = kw
+            self.kw = kw
 
         def a_s(self, mu2, nf_to=None):
             record.setdefault("a_s_calls", []).append((mu2, nf_to))
+            record["a_s_served_by"] = self.kw
             return 0.01 * mu2 ** 0.1 + 0.001 * nf_to
 
     class Atlas:
@@ -226,6 +231,15 @@ def output_wiring(fns, nfff, record, other_card=False):
     with npshim.patched((outmod, "runcards", Runcards), (outmod, "Couplings", Couplings), (outmod, "Atlas", Atlas),
                         (outmod, "nf_default", nf_default), (outmod, "couplings_mod_ev", lambda m: ("mod_ev", m)),
                         (outmod, "dictlike", type("D", (), {"load_enum": staticmethod(lambda enum, m: ("enum", m))}))):
+        if other_card == "second":
+            # the same Output serves a second card that differs only in the heavy-quark block (masses, matching ratios)
+            out.apply_pdf(PDFc())
+            for k in ("a_s_calls", "nf_default_calls"):
+                record.pop(k, None)
+            seen.clear()
+            used = dict(theory, mc=1.3, mb=4.5, kcThr=1.4, kbThr=0.9)
+            res = out.apply_pdf_theory(PDFc(), used)
+            return used, res, seen
         if other_card:
             used = dict(theory, XIR=0.9, XIF=1.6, alphas=0.13, Qref=10.0, mc=1.3)
             res = out.apply_pdf_theory(PDFc(), used)
@@ -236,8 +250,9 @@ def output_wiring(fns, nfff, record, other_card=False):
 
 def check_output(fns, nfff):
     out = []
-    for other in (False, True):
-        tag = " [card passed to apply_pdf_theory differs from the stored one]" if other else ""
+    for other in (False, True, "second"):
+        tag = {False: "", True: " [card passed to apply_pdf_theory differs from the stored one]",
+               "second": " [second card on the same Output, only the heavy-quark block differs]"}[other]
         out += [(lab + tag, a, b) for lab, a, b in _check_output(fns, nfff, other)]
     return out
 
@@ -256,15 +271,21 @@ def _check_output(fns, nfff, other_card):
     if "FFNS" in fns or "FFN0" in fns:
         obs.append(("fixed-flavour schemes run alpha_s with nf = NfFF", calls and calls[0][1] == nfff, True))
     else:
-        scales = [(m * k) ** 2 for m, k in ((1.51, 1.1), (4.92, 1.2), (172.5, 1.3))]
+        scales = [(theory[m] * theory[k]) ** 2 for m, k in (("mc", "kcThr"), ("mb", "kbThr"), ("mt", "ktThr"))]
         want = 3 + sum(1 for s in scales if s <= muR2)
         obs.append(("ZM-VFNS runs alpha_s with the number of flavours active at muR", calls and calls[0][1] == want, True))
         obs.append(("matching scales are (m k)^2", all(abs(a - b) < 1e-9 * b for a, b in zip(rec["atlas"][0], scales)), True))
     kw = rec.get("couplings_kwargs", {})
     obs.append(("Couplings built from the card's couplings/order/method/masses/thresholds",
-                kw.get("couplings") == "couplings-token" and kw.get("order") == "order-token" and kw.get("method") == ("mod_ev", ("enum", "iterate-exact"))
-                and list(kw.get("masses", [])) == [1.51 ** 2, 4.92 ** 2, 172.5 ** 2] and kw.get("hqm_scheme") == "POLE-token"
-                and all(abs(a - b) < 1e-12 for a, b in zip(kw.get("thresholds_ratios", []), [1.1 ** 2, 1.2 ** 2, 1.3 ** 2])), True))
+                kw.get("couplings") == ("couplings-token", theory["alphas"], theory["Qref"]) and kw.get("order") == "order-token"
+                and kw.get("method") == ("mod_ev", ("enum", "iterate-exact"))
+                and list(kw.get("masses", [])) == [theory["mc"] ** 2, theory["mb"] ** 2, theory["mt"] ** 2] and kw.get("hqm_scheme") == "POLE-token"
+                and all(abs(a - b) < 1e-12 for a, b in zip(kw.get("thresholds_ratios", []), [theory["kcThr"] ** 2, theory["kbThr"] ** 2, theory["ktThr"] ** 2])), True))
+    served = rec.get("a_s_served_by") or {}
+    obs.append(("alpha_s is served by a Couplings object built from THIS card (masses, thresholds, reference)",
+                list(served.get("masses", [])) == [theory["mc"] ** 2, theory["mb"] ** 2, theory["mt"] ** 2]
+                and served.get("couplings") == ("couplings-token", theory["alphas"], theory["Qref"])
+                and all(abs(a - b) < 1e-12 for a, b in zip(served.get("thresholds_ratios", []), [theory["kcThr"] ** 2, theory["kbThr"] ** 2, theory["ktThr"] ** 2])), True))
     obs.append(("the card handed to eko is the theory card", rec.get("legacy_theory") is theory, True))
     obs.append(("PDF evaluated at muF^2 = xiF^2 Q2", seen.get("muF2") == {Q2 * xiF ** 2}, True))
     a_s = (0.01 * muR2 ** 0.1 + 0.001 * calls[0][1]) if calls else 0
